@@ -20,6 +20,7 @@ limitations under the License.
 #include <photon/photon.h>
 #include <photon/thread/thread-pool.h>
 #include <photon/thread/thread.h>
+#include <photon/common/verif-hooks.h>
 
 #include <algorithm>
 #include <cassert>
@@ -72,13 +73,25 @@ public:
     }
 
     void enqueue(Delegate<void> call, AutoContext = {}) {
+#ifdef PHOTON_VERIF
+        // coverage only: the sender found the ring full, i.e. send() takes its back-off path
+        if (ring->full()) VERIF_COV(C_WORKPOOL_RING_FULL);
+#endif
         if (likely(CURRENT)) ring->send<PhotonPause>(call);
         else                 ring->send<ThreadPause>(call);
     }
     void enqueue(Delegate<void> call, StdContext) {
+#ifdef PHOTON_VERIF
+        // coverage only: the sender found the ring full, i.e. send() takes its back-off path
+        if (ring->full()) VERIF_COV(C_WORKPOOL_RING_FULL);
+#endif
         ring->send<ThreadPause>(call);
     }
     void enqueue(Delegate<void> call, PhotonContext) {
+#ifdef PHOTON_VERIF
+        // coverage only: the sender found the ring full, i.e. send() takes its back-off path
+        if (ring->full()) VERIF_COV(C_WORKPOOL_RING_FULL);
+#endif
         ring->send<PhotonPause>(call);
     }
     template <typename Context>
@@ -138,6 +151,9 @@ public:
             } else {
                 auto th = !pool ? thread_create(&delegate_helper, &tasklb) :
                            pool-> thread_create(&delegate_helper, &tasklb) ;
+                VERIF_COV(C_WORKPOOL_NEW_THREAD);
+                // the new thread has not copied tasklb yet: an OS-level stall here widens that window
+                VERIF_POINT(P_WORKPOOL_AFTER_CREATE);
                 // Once yield the current coroutine, the newly created coroutine will always
                 // be scheduled before the current coroutine. tasklb will not be overwritten.
                 photon::thread_yield_to(th);
